@@ -5,7 +5,7 @@ from vlib import c01lib, common
 
 GO = dict(module="core", pkg=c01lib.PKG, pkgname=c01lib.PKGNAME,
           files=dict(c01lib.ENV_FILES, **{"zz_verif_c02_test.go": "c02/c02_test.go", "zz_verif_c02gate_test.go": "c02/c02gate_test.go",
-                                          "zz_verif_c02abort_test.go": "c02/c02abort_test.go"}),
+                                          "zz_verif_c02abort_test.go": "c02/c02abort_test.go", "zz_verif_c02big_test.go": "c02/c02big_test.go"}),
           run="TestVerifC02")
 PARAMS_NAME = c01lib.PARAMS_NAME
 HEADER = ("From Hy Require Import gen.ParamsC01 model.C01_ServerAuth corr.C01_Corr model.C02_Abort corr.C02_Corr.\n"
@@ -33,7 +33,16 @@ RULE = ("seeded generator of request sequences (25-30 requests per connection) o
         "each followed by further rejected auth requests, other requests, more faults and (45%) an accepted auth request and traffic "
         "after it, on the same connection (same h3sHandler); every request runs under a real-time bound (8 s): NO response is a "
         "violation (confirmed by a liveness request on the same connection), a request whose callbacks return gets exactly the "
-        "handler's response, an aborted one shows nothing beyond what the handler alone had flushed. Non-trivial = a request that is not an accepted auth "
+        "handler's response, an aborted one shows nothing beyond what the handler alone had flushed. Big histories (6 per quick run, "
+        "~13 requests each): the header-SIZE dimension of 'every header set' - one header value of 8..64 KiB around every power of two "
+        "(Cookie, Authorization, the client's own Hysteria-Padding, ...), 100-800 header fields, one field name with 50-400 values, "
+        "a highly compressible value (decoded >> encoded), mixtures, and one request above 512 KiB per class (not an auth request / "
+        "rejected auth request) - all far below http.DefaultMaxHeaderBytes; the custom handlers of these histories answer with a "
+        "digest (count, bytes, SHA-256) of ALL header fields they were given; and the connection-STATE dimension: after an accepted "
+        "auth request (itself possibly with 20-70 KiB of padding) the near misses of the auth request - every other method to "
+        "hysteria/auth, other hosts, other paths, with credentials that would be accepted - arrive between repeats of the auth "
+        "request; every request runs under a real-time bound (25 s), anything but a complete response equal to the handler-alone "
+        "oracle (no 233, no Hysteria-* header) is a violation. Non-trivial = a request that is not an accepted auth "
         "request and whose response was compared with the oracle; distinct = distinct (config, request) pairs.")
 ASSUMPTIONS = [
     "a panic of a handler / authenticator / logger callback is recovered by the HTTP/3 server, which resets the request's stream and goes on "
@@ -43,7 +52,12 @@ ASSUMPTIONS = [
     "net/http and quic-go/http3 turn :method / :authority / :path into r.Method / r.Host / r.URL.Path as url.ParseRequestURI does (the harness "
     "computes the path the same way; exercised by the near-miss corpus, not modelled)",
     "Date and Content-Length are transport-level headers added by http3 to every response and are excluded from the comparison; a HEAD response has no body",
-    "the custom masquerade handlers of the harness are deterministic functions of (method, host, path, query, Hysteria-Auth)",
+    "the custom masquerade handlers of the harness are deterministic functions of (method, host, path, query, Hysteria-Auth); those of the "
+    "big histories also of the complete set of request header fields",
+    "a header block above http.DefaultMaxHeaderBytes (1 MiB, the limit the HTTP/3 library applies when MaxHeaderBytes is not set - as every "
+    "server of the net/http family does) is answered 431 by the library and is outside the property; the harness stays below 700 KiB",
+    "the encoded HEADERS frame of a request is never longer than its RFC 9114 field section size (name + value + 32 per field), so the "
+    "field section size the harness computes stands for both sizes the library compares (model/C02_Front.v)",
 ]
 TRUSTED = ["modelled rather than verified: h3sHandler.ServeHTTP / masqHandler of core/server/server.go and protocol/http.go "
            "(hand transcription in coq/model/C01_ServerAuth.v, shared with C01)"]
@@ -216,6 +230,110 @@ def gen_abort(rng, tier):
     return out
 
 
+# ---- big histories: LARGE header blocks, and requests that are not auth requests AFTER an accepted authentication on the
+# same connection (harness/go/c02/c02big_test.go)
+KIB = 1024
+# sizes around every power of two a header-block limit could sit at, and a few ordinary ones (a real-world cookie jar)
+ONE_VALUE = [8191, 8192, 12000, 16383, 16384, 16385, 20000, 24598, 32767, 32768, 40000, 65535, 65536, 66000]
+BIG_NAMES = ["Cookie", "Authorization", "X-Token", "Hysteria-Padding", "Referer", "X-Amz-Security-Token", "Hysteria-Extra"]
+METHOD_OFF = ["GET", "HEAD", "PUT", "post", "DELETE", "OPTIONS", "PATCH"]
+HOST_OFF = ["Hysteria", "HYSTERIA", "hysteria:443", "hysteria.", "hysteri", "www.hysteria"]
+PATH_OFF = ["/auth/", "/Auth", "//auth", "/auth/../auth", "/aut", "/authh", "/AUTH", "/auth;x", "/auth%2f"]
+
+
+def big_headers(rng, shape=None, total=None):
+    """generated header fields of one request (vHdrGen of the harness); total: aim at this many bytes"""
+    shape = shape or rng.choice(["one", "one", "one", "many", "many", "multi", "rep", "mix"])
+    a, b = rng.randrange(1, 250), rng.randrange(256)
+    if shape == "one":
+        n = total or rng.choice(ONE_VALUE)
+        name = rng.choice(BIG_NAMES)
+        return [{"n": name, "cnt": 1, "same": False, "kind": "cookie" if name == "Cookie" else "gd", "a": a, "b": b, "len": n}]
+    if shape == "rep":
+        # decodes to much more than it encodes to (one 5-bit Huffman symbol repeated)
+        n = total or rng.choice([20000, 26000, 33000, 50000, 100000])
+        return [{"n": rng.choice(["X-Pad", "Hysteria-Padding", "Cookie"]), "cnt": 1, "same": False, "kind": "rep", "a": rng.choice([0, 4, 8, 14, 18, 19]),
+                 "b": 0, "len": n}]
+    if shape == "many":
+        cnt = rng.choice([100, 200, 300, 500, 800])
+        ln = (total // cnt) if total else rng.choice([0, 8, 40, 200, 600])
+        ln = min(ln, 600 * KIB // cnt)
+        return [{"n": "X-F", "cnt": cnt, "same": False, "kind": "gd", "a": a, "b": b, "len": ln}]
+    if shape == "multi":
+        cnt = rng.choice([50, 150, 400])
+        ln = (total // cnt) if total else rng.choice([16, 100, 500])
+        return [{"n": rng.choice(["X-Forwarded-For", "Accept-Language", "Via"]), "cnt": cnt, "same": True, "kind": "gd", "a": a, "b": b, "len": ln}]
+    # mix: a cookie jar, a token and a crowd of small fields
+    return [{"n": "Cookie", "cnt": 1, "same": False, "kind": "cookie", "a": a, "b": b, "len": rng.choice([4096, 9000, 17000])},
+            {"n": "Authorization", "cnt": 1, "same": False, "kind": "gd", "a": b + 1, "b": a, "len": rng.choice([2000, 8200, 16400])},
+            {"n": "X-Client-Hint", "cnt": rng.choice([20, 60]), "same": False, "kind": "gd", "a": a + 2, "b": b, "len": rng.choice([10, 80])}]
+
+
+def near_miss(rng, n, coord, good=True):
+    """POST hysteria /auth with exactly one coordinate off, carrying what an auth request carries"""
+    m = rng.choice(METHOD_OFF) if coord == 0 else "POST"
+    h = rng.choice(HOST_OFF) if coord == 1 else "hysteria"
+    t = rng.choice(PATH_OFF) if coord == 2 else "/auth"
+    return {"m": m, "h": h, "t": t, "auth": ("good-c0-%d" if good else "bad-c0-%d") % n, "hasa": True, "ccrx": rng.choice(CCRX_OK), "hasrx": True,
+            "pad": rng.random() < 0.5, "body": ""}
+
+
+def big_case(rng, masq, accept, huge):
+    """huge: one of "non" / "rej" / None - this history carries a request of that class with a header block above 512 KiB"""
+    cfg = {"udp": rng.random() < 0.8, "masq": masq, "ignbw": rng.random() < 0.3, "maxtx": rng.choice([0, 65536]),
+           "maxrx": rng.choice([0, 65536, 250000])}
+    reqs, xh = [], []
+
+    def add(r, hdrs):
+        reqs.append(r)
+        xh.append(hdrs or [])
+
+    def maybe_big(p):
+        return big_headers(rng) if rng.random() < p else []
+    # before any authentication: requests that are not auth requests and rejected auth requests, most of them large
+    kinds = ["non", "rej", rng.choice(["non", "rej"]), rng.choice(["non", "rej", "near"])]
+    rng.shuffle(kinds)
+    for k in kinds:
+        n = len(reqs)
+        if k == "near":
+            add(near_miss(rng, n, rng.randrange(3)), maybe_big(0.8))
+        else:
+            add(xreq(rng, n, k), maybe_big(0.8))
+    if huge:
+        add(xreq(rng, len(reqs), huge), big_headers(rng, rng.choice(["one", "many", "multi"]), rng.randint(540, 640) * KIB))
+    if accept:
+        # the accepted auth request itself may be large (the client's padding is the client's business)
+        a = accepted_auth(rng, len(reqs))
+        add(a, [{"n": "Hysteria-Padding", "cnt": 1, "same": False, "kind": "gd", "a": 7, "b": 3, "len": rng.choice([2048, 20000, 70000])}]
+            if rng.random() < 0.5 else [])
+    # afterwards (authenticated or not): every coordinate off in turn, between repeats of the auth request
+    tail = [("near", 0), ("near", 0), ("near", 1), ("near", 2), ("near", rng.randrange(3)), ("rep", 0), ("rep", 0), ("non", 0)]
+    rng.shuffle(tail)
+    for k, coord in tail:
+        n = len(reqs)
+        if k == "near":
+            add(near_miss(rng, n, coord, good=rng.random() < 0.8), maybe_big(0.4))
+        elif k == "rep":
+            # (on an authenticated connection it is answered 233 whatever it carries; a never-accepted connection stays so)
+            r = xreq(rng, n, "acc" if accept and rng.random() < 0.5 else "rej")
+            add(r, maybe_big(0.4))
+        else:
+            add(xreq(rng, n, "non"), maybe_big(0.6))
+    return {"k": "big", "cfg": cfg, "reqs": reqs, "xh": xh, "probe": True}
+
+
+def gen_big(rng, tier):
+    out = []
+    for blk in range(1 if tier == "quick" else 12):
+        huge = ["non", "rej", None]
+        rng.shuffle(huge)
+        for masq in (0, 1, 2):
+            # two of three connections get accepted midway; each block has one never-accepted connection per three
+            out.append(big_case(rng, masq, True, huge[masq]))
+            out.append(big_case(rng, masq, (masq + blk) % 3 == 0, None))
+    return out
+
+
 def gen(rng, tier):
     scale = 1 if tier == "quick" else 16
     cases = []
@@ -235,6 +353,7 @@ def gen(rng, tier):
             i += 1
     # (appended last: the cases above are the same as before for a given seed)
     cases += gen_abort(rng, tier)
+    cases += gen_big(rng, tier)
     return cases
 
 
@@ -349,6 +468,7 @@ def to_coq(c, o):
         return abort_to_coq(c, o)
     cfg = c["cfg"]
     gate = c["k"] == "gate"
+    big = c["k"] == "big"
     ev, table = c01lib.log_to_events(o["log"], conc=gate)
     rs = []
     for r in o.get("rs") or []:
@@ -363,8 +483,12 @@ def to_coq(c, o):
             c01lib.req_term(e, 0), "true" if r["was"] else "false", "true" if r["called"] else "false", r.get("crx") or "0",
             "true" if r["acc"] else "false", padn, c01lib.resp_term(r["st"], r["hdr"], r["body"]),
             c01lib.resp_term(r["ost"], r["ohdr"], r["obody"])))
-    return "%s %s %s\n [%s]\n [%s]\n [%s]" % ("CGate" if gate else "CConn", c01lib.cfg_term(cfg), "true" if cfg["masq"] != 0 else "false",
-                                                ";\n  ".join(table), ";\n  ".join(ev), ";\n  ".join(rs))
+    t = "%s %s %s\n [%s]\n [%s]\n [%s]" % ("CGate" if gate else "CBig" if big else "CConn", c01lib.cfg_term(cfg), "true" if cfg["masq"] != 0 else "false",
+                                             ";\n  ".join(table), ";\n  ".join(ev), ";\n  ".join(rs))
+    if big:
+        # the size of every request's field section, in the order of the HttpReq actions of the log
+        t += "\n [%s]" % "; ".join(str(x.get("n", 0)) for x in o["log"] if x["k"] == "req")
+    return t
 
 
 def req_class(r):
@@ -377,7 +501,16 @@ def req_class(r):
     return "near-miss(1 off)" if off == 1 else "other"
 
 
+def size_class(n):
+    for lim, name in ((8 << 10, "<8KiB"), (16 << 10, "8-16KiB"), (64 << 10, "16-64KiB"), (256 << 10, "64-256KiB"), (512 << 10, "256-512KiB")):
+        if n < lim:
+            return name
+    return ">=512KiB"
+
+
 def klass(c, o):
+    if c["k"] == "big":
+        return "big/masq=%d/%s" % (c["cfg"]["masq"], "accepted-midway" if o.get("authed") else "never-accepted")
     if c["k"] == "abort":
         return "abort/masq=%d/%s" % (c["cfg"]["masq"], "accepted-in-the-end" if o.get("authed") else "never-accepted")
     if c["k"] == "gate":
@@ -399,6 +532,16 @@ def features(c, o):
                 f.add("after-a-callback-fault:" + req_class(r))
             if r.get("out") == "noresp":
                 f.add("NO-RESPONSE:" + req_class(r))
+    if c["k"] == "big":
+        for r in o.get("rs") or []:
+            if r.get("skip"):
+                continue
+            if r.get("fsz", 0) >= (8 << 10):
+                f.add("header-block:%s:%s%s" % (size_class(r["fsz"]), req_class(r), "/after-auth" if r["was"] else ""))
+            if r.get("hn", 0) >= 100:
+                f.add("header-fields>=100:" + req_class(r))
+            if r.get("out") not in (None, "", "resp"):
+                f.add("NO-COMPLETE-RESPONSE:" + req_class(r))
     if c["k"] == "gate":
         held = False
         for x in o.get("log") or []:
@@ -475,12 +618,17 @@ LEVEL_TEXT = ("Machine-checked Coq theorems over the model of ServeHTTP shared w
               "body); in every run a response that differs from the handler's is the 233 response to an auth request preceded by an "
               "accepting verdict on the same connection; is_auth_req holds for exactly one (method, host, path) triple; on an "
               "unauthenticated connection a proxy stream / datagram makes nothing observable and no dialling / relaying step is enabled. "
+              "HTTP/3 front of a connection (model/C02_Front.v: the http3.Server handleClient builds, MaxHeaderBytes unset = 1 MiB): in EVERY "
+              "state of a connection, authenticated or not, a request that is not an auth request and whose header block is at most "
+              "1 MiB - whatever its size - gets exactly the handler's response and changes nothing; the front passes exactly the "
+              "header blocks <= 1 MiB to ServeHTTP unchanged; in every run through the front a response is the handler's, or 233 "
+              "after an accepting verdict, or the library's 431 for a block above 1 MiB. "
               "Extended LTS (model/C02_Abort.v) in which the masquerade handler may abort (outcome MResp / MAbort sent) and the "
               "authenticator / loggers may panic: authMutex is released on every exit of the auth branch, no request on a live "
               "connection waits for ever (every end of a pending Authenticate call is enabled and frees the mutex), responses and "
               "aborts in every run are the handler's own unless an accepting verdict precedes, and the extension coincides with the "
               "shared model when every callback returns. "
-              "Tied to /repo on every run by regenerated constants and by ~300 real HTTP/3 requests per run compared with the handler "
+              "Tied to /repo on every run by regenerated constants and by ~380 real HTTP/3 requests per run compared with the handler "
               "mounted on an httptest recorder and replayed through the model in Coq (vm_compute).")
 LEVEL_NOTE = ("Trusted: Coq kernel + vm_compute; hand-written model (tie = sampled end-to-end requests + regenerated Params); python/Go glue. "
               "No axioms. Not proved: how net/http / http3 canonicalise :authority and :path; transport-level headers.")
